@@ -25,11 +25,13 @@ GROUPS = {
         crate="zksync_protobuf",
         splice=[("libs/protobuf/src/std_conv.rs", "kani/std_conv.rs")],
         stubbing=True,
+        # C09 (round trips) and C10 (totality of the decoders) run different subsets in their quick tier
         harnesses=[dict(name="duration_read_total", kind="complete", timeout=500, quick=True),
                    dict(name="duration_roundtrip", kind="complete", timeout=1200),
                    dict(name="duration_build_after_read_total", kind="complete", timeout=1200, quick=True),
-                   dict(name="utc_read_total", kind="complete", timeout=500),
-                   dict(name="socket_addr_roundtrip", kind="complete", timeout=1800, quick=True)],
+                   dict(name="utc_read_total", kind="complete", timeout=500, quick=["C10"]),
+                   dict(name="socket_addr_roundtrip", kind="complete", timeout=1800, quick=["C09"]),
+                   dict(name="socket_addr_read_total", kind="bounded(ip field <= 20 bytes)", timeout=1800, quick=True)],
     ),
     "mux_header": dict(
         crate="zksync_consensus_network",
